@@ -6,7 +6,7 @@ import random
 import numpy as np
 
 from harness.common import Failure, clist, cz
-from harness.tracks_gen import (LABEL_IDS, NODE_IDS, all_dags, classes, components, cpairs, is_dag, mk_case, named_ids,
+from harness.tracks_gen import (respell, LABEL_IDS, NODE_IDS, all_dags, classes, components, cpairs, is_dag, mk_case, named_ids,
                                 set_partitions)
 
 PROP = "C13"
@@ -58,6 +58,12 @@ def perturb(rng, nodes, part):
 
 
 def generate(rng: random.Random, tier: str):
+    r2 = random.Random(rng.random())
+    for c in _generate(rng, tier):
+        yield respell(r2, c)
+
+
+def _generate(rng: random.Random, tier: str):
     for n in range(5):
         for edges in all_dags(n):
             for labels in set_partitions(n):
